@@ -141,4 +141,31 @@ def Candle.avgs {P S : Type} (so : SumOps S) (c : Candle P S) : List S := c.sums
 def candleToRow {P S : Type} (c : Candle P S) : Row P S :=
   { t := c.epoch * 1000000000, o := c.op, h := c.hi, l := c.lo, c := c.cl, sums := [] }
 
+/-! ## composition across timeframes (C22) -/
+
+/-- ticks → `TickCandler(cdC)` -/
+def direct {P S : Type} (po : PriceOps P) (so : SumOps S) (cdC : CandleDuration) (z : Zone)
+    (rows : List (Row P S)) : List (Candle P S) :=
+  output (accum po so cdC z 0 [rows])
+
+/-- ticks → `TickCandler(cdF)` → output rows → `CandleCandler(cdC)` -/
+def composed {P S : Type} (po : PriceOps P) (so : SumOps S) (cdF cdC : CandleDuration) (z : Zone)
+    (rows : List (Row P S)) : List (Candle P S) :=
+  output (accum po so cdC z 0 [(output (accum po so cdF z 0 [rows])).map candleToRow])
+
+/-- the duration a candle duration's windows are multiples of, when they are fixed-length blocks counted
+    from Go's zero time (in UTC a `D` window is such a block of 24 h); `none` for months -/
+def blockDur (cd : CandleDuration) : Option Int :=
+  match cd.suffix with
+  | .M => none
+  | .D => some day
+  | _ => some cd.duration
+
+/-- "the fine timeframe divides the coarse one" -/
+def divides (f c : CandleDuration) : Bool :=
+  match blockDur f, blockDur c with
+  | some df, some dc => decide (0 < df) && decide (0 < dc) && dc % df == 0
+  | some df, none => decide (0 < df) && day % df == 0
+  | none, _ => false
+
 end Mkts.Agg
